@@ -4,8 +4,8 @@
    [fops F] and instantiated
      - at Qc (canonical rationals of the standard library: every operation ends with Qred, Leibniz equality) -- this is
        what is extracted and run against the hook events of the real solvers on every run,
-     - at Qc * Qc (value, running rounding-error bound) -- the same code then also delivers, entry by entry, the
-       magnitude against which the driver compares the doubles of the implementation,
+     - by the driver at (Qc, running rounding-error bound) built from the extracted QcO -- the same code then also
+       delivers, entry by entry, the magnitude against which the doubles of the implementation are compared,
      - at R in the property file (the theorems hold over every ordered field).
    Vectors are lists, matrices are lists of rows.  All operations are total; a missing entry reads as 0 ([vadd] pads),
    which is what keeps the algebra free of dimension side conditions.  No proofs in this file. *)
@@ -215,25 +215,3 @@ Arguments lbfgs_push {F}.
 Definition zcmp (c : comparison) : Z := match c with Lt => (-1)%Z | Eq => 0%Z | Gt => 1%Z end.
 Definition QcO : fops Qc :=
   mk_fops Qc (Q2Qc 0) (Q2Qc 1) Qcplus Qcmult Qcminus Qcopp Qcdiv Qcinv (fun a b => zcmp (Qccompare a b)).
-
-(* ---- instance 2: (value, running error bound in units of the rounding unit) ----------------------------------- *)
-(* first-order propagation: an exact input carries 0; every operation adds the magnitude of its own result.  The
-   doubles of the implementation must agree with the value within 1e-9 * bound (the rounding unit is 2^-53) *)
-Definition qcabs (a : Qc) : Qc := match Qccompare a (Q2Qc 0) with Lt => Qcopp a | _ => a end.
-Definition QE := (Qc * Qc)%type.
-Definition qe_add (a b : QE) : QE :=
-  let v := Qcplus (fst a) (fst b) in (v, Qcplus (Qcplus (snd a) (snd b)) (qcabs v)).
-Definition qe_sub (a b : QE) : QE :=
-  let v := Qcminus (fst a) (fst b) in (v, Qcplus (Qcplus (snd a) (snd b)) (qcabs v)).
-Definition qe_mul (a b : QE) : QE :=
-  let v := Qcmult (fst a) (fst b) in
-  (v, Qcplus (Qcplus (Qcmult (snd a) (qcabs (fst b))) (Qcmult (qcabs (fst a)) (snd b))) (qcabs v)).
-Definition qe_inv (a : QE) : QE :=
-  let v := Qcinv (fst a) in (v, Qcplus (Qcmult (snd a) (Qcmult v v)) (qcabs v)).
-Definition qe_div (a b : QE) : QE :=
-  let v := Qcdiv (fst a) (fst b) in
-  let ib := qcabs (Qcinv (fst b)) in
-  (v, Qcplus (Qcplus (Qcmult (snd a) ib) (Qcmult (Qcmult (qcabs (fst a)) (snd b)) (Qcmult ib ib))) (qcabs v)).
-Definition QEO : fops QE :=
-  mk_fops QE (Q2Qc 0, Q2Qc 0) (Q2Qc 1, Q2Qc 0) qe_add qe_mul qe_sub (fun a => (Qcopp (fst a), snd a)) qe_div qe_inv
-          (fun a b => zcmp (Qccompare (fst a) (fst b))).
